@@ -145,8 +145,15 @@ def run(ctx):
         if case.get("extra_ignored"):
             # a second way of ignoring contigs: names added afterwards; the contigs ignored by the filter must stay ignored
             genome0 = genome
+            sizes_before = dict(sizes_with_ignored)
             genome = genome.with_ignored_added(["chrM"])
             ignored_names.add("chrM")
+            # deriving a tolerant genome leaves the caller's size table (and genomes made from it later) as they were
+            ctx.check("with_ignored_added", dict(sizes_with_ignored) == sizes_before and list(sizes_with_ignored) == list(sizes_before), "with_ignored_added/changed-the-callers-size-table", "the size table handed to the genome was %r and is %r after with_ignored_added(['chrM'])" % (sizes_before, dict(sizes_with_ignored)),
+                      dict(case, before=sizes_before, after=dict(sizes_with_ignored)), None)
+            later = bnp.Genome.from_dict(sizes_with_ignored, filter_function=None if case.get("no_filter") else ignore_underscores)
+            ctx.check("with_ignored_added", "chrM" not in later.get_genome_context().chrom_sizes and list(later.get_genome_context().chrom_sizes) == list(genome0.get_genome_context().chrom_sizes), "with_ignored_added/a-genome-made-later-from-the-same-table-differs",
+                      "a genome made from the same size table afterwards has contigs %r, the first one had %r" % (list(later.get_genome_context().chrom_sizes), list(genome0.get_genome_context().chrom_sizes)), dict(case), None)
         rows = make_rows(groups)
         cuts = [c_ for c_ in cuts if 0 < c_ < len(rows)]          # renamed contigs change the number of entries: no cut beyond the last entry (no empty chunks)
         case = dict(case, cuts=cuts)
